@@ -874,9 +874,10 @@ def rule_printargs(ctx, sig, body, arg):
 
 
 def rule_enumloop(ctx, sig, body, arg):
-    """@rule enumloop <occurrence>: `for (I, X) in V.iter().enumerate() { B }` (V a Vec, B without `continue`) ->
-    `let mut I: usize = 0; while I < V.len() { let X = &V[I]; B  I += 1; }` : the definition of iter() + enumerate() on a Vec
-    (items in order, paired with their index).  Verus has no specification of Enumerate."""
+    """@rule enumloop <occurrence>: `for (I, X) in V.iter().enumerate() { B }` (V a Vec) ->
+    `let mut enum__I: usize = 0; while enum__I < V.len() { let I: usize = enum__I; let X = &V[I]; enum__I += 1; B }` :
+    the definition of iter() + enumerate() on a Vec (items in order, paired with their index; the counter advances when the item is
+    taken, so a `continue` in B behaves as in the original).  Verus has no specification of Enumerate."""
     occ = int(arg.split()[0]) if arg.strip() else 1
     pat = re.compile(r'for\s*\(\s*(\w+)\s*,\s*(\w+)\s*\)\s*in\s+([\w\.]+?)\s*\.iter\(\)\s*\.enumerate\(\)\s*\{')
     ms = [m for m in pat.finditer(body) if not _in_comment_or_string(body, m.start())]
@@ -884,18 +885,10 @@ def rule_enumloop(ctx, sig, body, arg):
         raise RuleError('no `for (i, x) in v.iter().enumerate() {` loop found')
     m = ms[occ - 1]
     i, x, v = m.group(1), m.group(2), m.group(3)
-    # matching close brace of the loop body
-    toks = tokenize(body)
-    ct = code_tokens(toks)
-    open_i = next(k for k, t in enumerate(ct) if t.pos == m.end() - 1)
-    close_i = match_close(ct, open_i)
-    inner = body[ct[open_i].end:ct[close_i].pos]
-    if any(t.kind == 'ident' and t.text == 'continue' for t in code_tokens(tokenize(inner))):
-        raise RuleError('loop body contains `continue`')
-    head = f'let mut {i}: usize = 0;\n    while {i} < {v}.len() {{\n        let {x} = &{v}[{i}];'
-    tail = f'\n        {i} += 1;\n    }}'
-    ctx.note('R-enumloop', m.group(0), head + ' .. ' + tail.strip())
-    return sig, body[:m.start()] + head + inner + tail + body[ct[close_i].end:]
+    head = (f'let mut enum__{i}: usize = 0;\n    while enum__{i} < {v}.len() {{\n        let {i}: usize = enum__{i};\n'
+            f'        let {x} = &{v}[{i}];\n        enum__{i} += 1;')
+    ctx.note('R-enumloop', m.group(0), head)
+    return sig, body[:m.start()] + head + body[m.end():]
 
 
 def _in_comment_or_string(body, pos):
